@@ -295,11 +295,17 @@ ReadOK(s, mx, n, res, b0, b1, cont, code) ==
                            /\ J("C19") => (avail = 0 /\ r.fin # r.rd /\ ~r.cr)
                            /\ (J("C19") \/ J("C32")) => r.rst < 0
       [] OTHER          -> FALSE
+(* Known finding F14 (named deviation): after CloseRead a Read can still return bytes from the  *)
+(* stale lock-free buffer, whose memory has been recycled - not the data of this stream.        *)
 AppRead(s, mx, n, res, b0, b1, cont, code) ==
+    LET good  == ReadOK(s, mx, n, res, b0, b1, cont, code)        \* evaluated as a state predicate
+        stale == rcv[s].cr /\ res = "ok" /\ n >= 1 /\ n <= mx
+    IN
     /\ cx.cr[s] /\ n >= 0
-    /\ ReadOK(s, mx, n, res, b0, b1, cont, code) = TRUE     \* (= TRUE: evaluated as a state predicate)
+    /\ (good \/ stale) = TRUE
     /\ rcv' = [rcv EXCEPT ![s].rd = @ + n, ![s].eof = @ \/ res = "eof", ![s].rac = @ \/ ~Live(s)]
-    /\ UNCHANGED <<snd, cx>>
+    /\ cx' = [cx EXCEPT !.dev = IF good THEN @ ELSE @ \cup {"StaleBufferReadAfterCloseRead"}]
+    /\ UNCHANGED snd
 
 AppCloseRead(s) ==
     /\ rcv' = [rcv EXCEPT ![s].cr = @ \/ cx.cr[s]]
@@ -349,7 +355,7 @@ FinalOK ==
 (* deviations that are violations of the property being judged *)
 Flagged == (IF J("C20") THEN {"NoFlowErrorAfterCloseRead", "EndMovedByLateRead"} ELSE {})
            \cup (IF J("C32") THEN {"SpuriousFinalSizeAfterLateRead"} ELSE {})
-           \cup (IF J("C19") THEN {"StallAfterCloseRead"} ELSE {})
+           \cup (IF J("C19") THEN {"StallAfterCloseRead", "StaleBufferReadAfterCloseRead"} ELSE {})
 
 -----------------------------------------------------------------------------
 (* Design model (model stage).  E's send half talks to a copy of E's receive half over a  *)
